@@ -228,6 +228,39 @@ func (c *C12) Run(x *engine.Ctx) *engine.Violation {
 			return engine.Violatef("C12/proof-with-imported-keys-rejected", "%s: %v", key, err)
 		}
 		x.S.Count("probe:setup_and_import_paths_compared")
+		// node D: the CLI's import-setup with the same key files must write a keys file holding the very same system
+		if t.Chance(1, 2) {
+			out := filepath.Join(dir, "imported.ps")
+			r := ops.Run(ops.Cmd{Args: []string{"import-setup", "--mode", mode, "--tree-depth", strconv.Itoa(depth), "--batch-size", strconv.Itoa(batch), "--pk", pkPath, "--vk", vkPath, "--output", out}, GoMaxProcs: []int{1, 2, 4, 16}[t.Pick(4)]})
+			if r.Exit != 0 {
+				return engine.Violatef("C12/cli-import-setup-fails", "%s: %s", key, ops.Describe(r))
+			}
+			dps, err := prover.ReadSystemFromFile(out)
+			os.Remove(out)
+			if err != nil {
+				// whether a written keys file loads back is C11's and C15's business, not this property's
+				x.S.Count("probe:cli_import_setup_output_did_not_load")
+				return nil
+			}
+			note("D/process-import-setup", csHash(dps.ConstraintSystem))
+			if hashes["D/process-import-setup"] != ref {
+				return differ(key, "`gnark-mbu import-setup` and the r1cs path disagree", hashes)
+			}
+			if dps.TreeDepth != uint32(depth) || dps.BatchSize != uint32(batch) {
+				// the constraint system is the right one; a wrong header is the file layer's defect (C11)
+				x.S.Count("probe:cli_import_setup_header_differs")
+				return nil
+			}
+			d := &gtier.System{Mode: mode, Depth: depth, Batch: batch, PS: dps}
+			p2, h2, err := proveValid(t, d)
+			if err != nil {
+				return engine.Violatef("C12/imported-keys-cannot-prove", "%s (CLI import-setup): %v", key, err)
+			}
+			if err := gtier.VerifyWithVK(a, p2, h2); err != nil {
+				return engine.Violatef("C12/proof-with-imported-keys-rejected", "%s (CLI import-setup): %v", key, err)
+			}
+			x.S.Count("probe:cli_import_setup_compared")
+		}
 	}
 	if x.S.WantSample() {
 		x.S.Sample(map[string]any{"configuration": key, "sha256_by_node": hashes})
